@@ -69,6 +69,12 @@ func actions() []action {
 		{"chat", []string{"message"}, func() sig.Msg { return sig.Msg{"type": "chat", "source": "c0", "value": "hi"} }},
 		{"chat-private", []string{"message"}, func() sig.Msg { return sig.Msg{"type": "chat", "source": "c0", "dest": "c2", "value": "hi"} }},
 		{"caption", []string{"caption"}, func() sig.Msg { return sig.Msg{"type": "chat", "kind": "caption", "source": "c0", "value": "hi"} }},
+		{"caption-private", []string{"caption"}, func() sig.Msg {
+			return sig.Msg{"type": "chat", "kind": "caption", "source": "c0", "dest": "c2", "value": "hi"}
+		}},
+		{"usermessage-broadcast", []string{"message"}, func() sig.Msg {
+			return sig.Msg{"type": "usermessage", "kind": "x", "source": "c0", "value": "hi"}
+		}},
 		{"usermessage", []string{"message"}, func() sig.Msg {
 			return sig.Msg{"type": "usermessage", "kind": "x", "source": "c0", "dest": "c2", "value": "hi"}
 		}},
@@ -537,8 +543,49 @@ func tokenCheck(res *core.Result) core.Sub {
 		}
 		w.Close()
 	}
+	// a member of a subgroup: the parent's tokens (hierarchical or not) are
+	// not its own group's
+	for _, hier := range []bool{true, false} {
+		for _, kind := range []string{"listtokens", "edittoken"} {
+			w := sig.NewWorld(map[string]string{"par": `{"allow-subgroups":true,"users":{"oper":{"password":"p","permissions":"op"}}}`}, 1)
+			exp := vtime.Now().Add(time.Hour)
+			token.Update(&token.Stateful{Token: "tok-par", Group: "par", IncludeSubgroups: hier, Permissions: []string{"present"}, Expires: &exp}, "")
+			token.Update(&token.Stateful{Token: "tok-kid", Group: "par/kid", Permissions: []string{"present"}, Expires: &exp}, "")
+			w.Send(0, sig.Join("par/kid", "oper", "p"))
+			w.Settle(nil)
+			before := tokensState()
+			msg := ga("listtokens", nil)()
+			if kind == "edittoken" {
+				msg = ga("edittoken", map[string]any{"token": "tok-par", "expires": vtime.Base.Add(5 * time.Hour).Format(time.RFC3339)})()
+			}
+			msg["source"], msg["username"] = "c0", "oper"
+			o := w.Send(0, msg)
+			w.Settle(nil)
+			sub.Executions++
+			outc.Add(fmt.Sprint("subgroup", kind, hier, len(o.New[0])))
+			sawOwn := false
+			for _, m := range o.New[0] {
+				j, _ := json.Marshal(m)
+				if strings.Contains(string(j), "tok-kid") {
+					sawOwn = true
+				}
+				if strings.Contains(string(j), "tok-par") && !refusal(m) {
+					res.Violate(core.Violation{Signature: "C11/" + kind + "/discloses-parent-group",
+						What: fmt.Sprintf("%s by an op+token member of par/kid: the reply contains a token of the parent group par (include-subgroups=%v): %s", kind, hier, j)})
+				}
+			}
+			if kind == "listtokens" && !sawOwn {
+				res.Violate(core.Violation{Signature: "HARNESS-FAULT", What: "subgroup fixture: the member's own token was not listed (is the member joined with op+token?)"})
+			}
+			if kind == "edittoken" && tokensState() != before {
+				res.Violate(core.Violation{Signature: "C11/edittoken/other-group",
+					What: "edittoken by a member of par/kid changed a token of the parent group par"})
+			}
+			w.Close()
+		}
+	}
 	sub.States, sub.Transitions, sub.Outcomes = sub.Executions, sub.Executions, outc.N()
-	sub.Bound = "full product: unrestricted(2) x creator roles(5) x permission sets(9) x groups(4) x expiry(2) x usernames(3); edit/list x roles(4) x tokens(3)"
+	sub.Bound = "full product: unrestricted(2) x creator roles(5) x permission sets(9) x groups(4) x expiry(2) x usernames(3); edit/list x roles(4) x tokens(3); subgroup member x parent token (hierarchical or not) x list/edit"
 	return sub
 }
 
